@@ -544,6 +544,17 @@ func (cl *Cluster) Expire() {
 	}
 }
 
+// ExpireFor makes every lock written so far look expired to one client only (a resolver whose clock runs
+// ahead): on mocktikv the shared virtual clock advances (time simply passes for everybody), on unistore only
+// that client's clock is skewed, and it must not commit afterwards.
+func (cl *Cluster) ExpireFor(client int) {
+	if cl.Clock != nil {
+		cl.Clock.Advance(time.Hour)
+		return
+	}
+	cl.Clients[client%len(cl.Clients)].PD.skewMs.Add(time.Hour.Milliseconds())
+}
+
 // NextCall returns a fresh API call id.
 func (cl *Cluster) NextCall() int { cl.calls++; return cl.calls }
 
